@@ -56,6 +56,8 @@ def apply_actions(
         )
 
     accumulative_changed_state = current_state.copy()
+    # the result is a successor state even when no action was executed (e.g., all the agents perform nop).
+    accumulative_changed_state.is_init = False
     for action_call in joint_action:
         if action_call.name == NOP_ACTION:
             continue
